@@ -165,7 +165,7 @@ class PythonIgnoreDetector:
         quotes = ['"""', "'''"]
         scannable: list[tuple[int, str]] = []
 
-        for line_num, line in enumerate(code.splitlines(), start=1):
+        for line_num, line in enumerate(code.split("\n"), start=1):
             was_in_docstring = in_docstring[0] or in_docstring[1]
             self._update_docstring_state(line, quotes, in_docstring)
             if not was_in_docstring:
